@@ -114,7 +114,23 @@ func (m c17) Run(ctx *core.Ctx) {
 }
 
 func canonParse(ctx *core.Ctx, p url.Parser, in string) (string, bool, *core.Panic) {
-	u, err, pan := parseImpl(ctx, p, in, "", false, false)
+	return canonParseVia(ctx, p, in, 0)
+}
+
+// canonRouteBases: route 0 is Parse; route k > 0 is ParseRef(canonRouteBases[k], in) - for an
+// absolute URL the base is irrelevant, and with the empty base ParseRef either refuses (today)
+// or has to canonicalize like Parse does.
+var canonRouteBases = []string{"", "http://other.example/x/y?q#f", "", "file:///C:/a"}
+
+func canonParseVia(ctx *core.Ctx, p url.Parser, in string, route int) (string, bool, *core.Panic) {
+	var u *url.Url
+	var err error
+	var pan *core.Panic
+	if route == 0 {
+		u, err, pan = parseImpl(ctx, p, in, "", false, false)
+	} else {
+		pan = ctx.Call(len(in)+256, func() { u, err = p.ParseRef(canonRouteBases[route], in) })
+	}
 	if pan != nil {
 		return "", false, pan
 	}
@@ -137,7 +153,18 @@ func (c17) Exec(ctx *core.Ctx, cs *core.Case) {
 	case 2:
 		sameParserHistory(ctx, p, in)
 	}
-	s1, ok1, pan := canonParse(ctx, p, in)
+	// the entry points vary: the input may be canonicalized as a reference against a base
+	// (ParseRef), and the canonical string may be fed back through Parse or ParseRef
+	r1, r2 := 0, 0
+	switch k := len(in) % 20; {
+	case k == 7 || k == 11:
+		r1 = 1
+	case k == 13:
+		r1 = 3
+	case k == 17 || k == 19:
+		r2 = 1
+	}
+	s1, ok1, pan := canonParseVia(ctx, p, in, r1)
 	if pan != nil {
 		ctx.Count("panic(C02)")
 		return
@@ -148,7 +175,10 @@ func (c17) Exec(ctx *core.Ctx, cs *core.Case) {
 	}
 	ctx.Nontrivial()
 	ctx.Count("canonicalized:" + cs.Check)
-	s2, ok2, pan := canonParse(ctx, p, s1)
+	if r1 != 0 || r2 != 0 {
+		ctx.Count(fmt.Sprintf("routes:%d/%d", r1, r2))
+	}
+	s2, ok2, pan := canonParseVia(ctx, p, s1, r2)
 	if pan != nil {
 		ctx.Violate("canonicalizing a canonical string panics", s1, pan.String(), fmt.Sprint(cs.Config))
 		return
